@@ -138,16 +138,12 @@ def afb1d(x, h0, h1, mode='zero', dim=-1):
             else:
                 x = torch.cat((x, x[:,:,:,-1:]), dim=3)
             N += 1
-        x = roll(x, -L2, dim=d)
-        pad = (L-1, 0) if d == 2 else (0, L-1)
-        lohi = F.conv2d(x, h, padding=pad, stride=s, groups=C)
-        N2 = N//2
-        if d == 2:
-            lohi[:,:,:L2] = lohi[:,:,:L2] + lohi[:,:,N2:N2+L2]
-            lohi = lohi[:,:,:N2]
-        else:
-            lohi[:,:,:,:L2] = lohi[:,:,:,:L2] + lohi[:,:,:,N2:N2+L2]
-            lohi = lohi[:,:,:,:N2]
+        # Periodically extend the signal by L2-1 samples either side, then do
+        # a strided 'valid' correlation. This wraps around as many times as
+        # needed, so is also correct for signals shorter than the filter.
+        xe = np.arange(-(L2-1), N+L2-1) % N
+        x = x[:,:,xe] if d == 2 else x[:,:,:,xe]
+        lohi = F.conv2d(x, h, stride=s, groups=C)
     else:
         # Calculate the pad size
         outsize = pywt.dwt_coeff_len(N, L, mode=mode)
@@ -252,13 +248,13 @@ def sfb1d(lo, hi, g0, g1, mode='zero', dim=-1):
     if mode == 'per' or mode == 'periodization':
         y = F.conv_transpose2d(lo, g0, stride=s, groups=C) + \
             F.conv_transpose2d(hi, g1, stride=s, groups=C)
-        if d == 2:
-            y[:,:,:L-2] = y[:,:,:L-2] + y[:,:,N:N+L-2]
-            y = y[:,:,:N]
-        else:
-            y[:,:,:,:L-2] = y[:,:,:,:L-2] + y[:,:,:,N:N+L-2]
-            y = y[:,:,:,:N]
-        y = roll(y, 1-L//2, dim=dim)
+        # Wrap the N+L-2 samples of the full convolution back onto the N
+        # output samples (shifted by L//2-1). Adding modulo N wraps around as
+        # many times as needed, so is also correct when N < L-2.
+        xe = torch.as_tensor((np.arange(N+L-2) - (L//2-1)) % N, device=y.device)
+        shape = list(y.shape)
+        shape[d] = N
+        y = y.new_zeros(shape).index_add_(d, xe, y)
     else:
         if mode == 'zero' or mode == 'symmetric' or mode == 'reflect' or \
                 mode == 'periodic':
@@ -561,13 +557,12 @@ def afb2d_nonsep(x, filts, mode='zero'):
         if x.shape[3] % 2 == 1:
             x = torch.cat((x, x[:,:,:,-1:]), dim=3)
             Nx += 1
-        pad = (Ly-1, Lx-1)
         stride = (2, 2)
-        x = roll(roll(x, -Ly//2, dim=2), -Lx//2, dim=3)
-        y = F.conv2d(x, f, padding=pad, stride=stride, groups=C)
-        y[:,:,:Ly//2] += y[:,:,Ny//2:Ny//2+Ly//2]
-        y[:,:,:,:Lx//2] += y[:,:,:,Nx//2:Nx//2+Lx//2]
-        y = y[:,:,:Ny//2, :Nx//2]
+        # Periodic extension then 'valid' correlation (see afb1d)
+        ye = np.arange(-(Ly//2-1), Ny+Ly//2-1) % Ny
+        xe = np.arange(-(Lx//2-1), Nx+Lx//2-1) % Nx
+        x = x[:,:,ye][:,:,:,xe]
+        y = F.conv2d(x, f, stride=stride, groups=C)
     elif mode == 'zero' or mode == 'symmetric' or mode == 'reflect':
         # Calculate the pad size
         out1 = pywt.dwt_coeff_len(Ny, Ly, mode=mode)
@@ -784,10 +779,14 @@ def sfb2d_nonsep(coeffs, filts, mode='zero'):
     x = coeffs.reshape(coeffs.shape[0], -1, coeffs.shape[-2], coeffs.shape[-1])
     if mode == 'periodization' or mode == 'per':
         ll = F.conv_transpose2d(x, f, groups=C, stride=2)
-        ll[:,:,:Ly-2] += ll[:,:,2*Ny:2*Ny+Ly-2]
-        ll[:,:,:,:Lx-2] += ll[:,:,:,2*Nx:2*Nx+Lx-2]
-        ll = ll[:,:,:2*Ny,:2*Nx]
-        ll = roll(roll(ll, 1-Ly//2, dim=2), 1-Lx//2, dim=3)
+        # Wrap the full convolution back onto the output (see sfb1d)
+        ye = torch.as_tensor(
+            (np.arange(2*Ny+Ly-2) - (Ly//2-1)) % (2*Ny), device=ll.device)
+        xe = torch.as_tensor(
+            (np.arange(2*Nx+Lx-2) - (Lx//2-1)) % (2*Nx), device=ll.device)
+        s = ll.shape
+        ll = ll.new_zeros(s[0], s[1], 2*Ny, s[3]).index_add_(2, ye, ll)
+        ll = ll.new_zeros(s[0], s[1], 2*Ny, 2*Nx).index_add_(3, xe, ll)
     elif mode == 'symmetric' or mode == 'zero' or mode == 'reflect' or \
             mode == 'periodic':
         pad = (Ly-2, Lx-2)
